@@ -107,7 +107,12 @@ def run(prop, seed, tier):
                     continue
                 want = spec_from_members(text.format(t=t), types)
                 node = [x for x in nodes['f%d' % n] if x.name == 'X'][0]
-                got = Ad.from_model(node)
+                try:
+                    got = Ad.from_model(node)
+                except Exception as ex:
+                    # accepted, but the model holds something that denotes no schema (e.g. a discriminator that is no number)
+                    fail('isar-model:' + label, doc, 'the model of the accepted isar input denotes no schema: %r' % ex)
+                    continue
                 if not Ad.same_schema(got, want):
                     fail('isar-form:' + label, doc, 'isar form "%s": model denotes %r, the prophy-language description is %r' % (label, got, want))
                     continue
@@ -163,7 +168,11 @@ def run(prop, seed, tier):
             elif ok:
                 node = [x for x in nodes['p%d' % n] if x.name == 'M'][0]
                 want = spec_from_members(want_text, types)
-                got = Ad.from_model(node)
+                try:
+                    got = Ad.from_model(node)
+                except Exception as ex:
+                    fail('patch-model', text, 'after the rule the model denotes no schema: %r' % ex)
+                    continue
                 if not Ad.same_schema(got, want):
                     fail('patch-effect', text, 'after the rule the model denotes %r, documented %r' % (got, want))
     return {'cases': cases, 'distinct': cases, 'failures': failures, 'domain': DOMAIN, 'bound': '%d forms x %d element types + %d patch scripts' % (len(FORMS), len(elem_types), len(rules))}
